@@ -15,6 +15,7 @@ case "$PKG" in
   chunk|chunk_test) SUB=internal/chunk ;;
   internal|internal_test) SUB=internal ;;
   lfsc|lfsc_test) SUB=lfsc ;;
+  consul|consul_test) SUB=consul ;;
   *) SUB=. ;;
 esac
 cp $DEMO $W/$SUB/zz_seed_demo_test.go
